@@ -752,6 +752,25 @@ static int32_t tls13CheckHsState(ssl_t *ssl,
     }
 }
 
+/** RFC 8446, section 5.1: handshake messages must not span key changes.
+    ClientHello, ServerHello (HelloRetryRequest), EndOfEarlyData and Finished
+    immediately precede a key change, so each of them must be the last
+    message in its record. msgRecEnd points just after the bytes of the
+    message in the current record, recEnd to the end of the record. */
+static int32_t tls13CheckAlignedWithRecordEnd(ssl_t *ssl,
+        const unsigned char *msgRecEnd,
+        const unsigned char *recEnd)
+{
+    if (msgRecEnd != recEnd)
+    {
+        psTraceErrr("Handshake message preceding a key change " \
+                "does not end its record\n");
+        ssl->err = SSL_ALERT_UNEXPECTED_MESSAGE;
+        return MATRIXSSL_ERROR;
+    }
+    return PS_SUCCESS;
+}
+
 /** Initialize reading of a fragmented HS message.
     @precond pb.buf.start must point to the start of the HS message header. */
 static
@@ -978,6 +997,12 @@ static int32_t tls13ParseHandshakeMessage(ssl_t *ssl,
             return SSL_NO_TLS_1_3;
         }
 
+        rc = tls13CheckAlignedWithRecordEnd(ssl, *bufStart, bufEnd);
+        if (rc < 0)
+        {
+            goto exit;
+        }
+
         /* Now parse again and handle the message. */
         pb.buf.start = hsMsgStart;
         ssl->sec.tls13CHStart = msgStart; /* Include header. */
@@ -1013,6 +1038,11 @@ static int32_t tls13ParseHandshakeMessage(ssl_t *ssl,
                 /* Need to go back to start state so that next
                  * ClientHello is sent again as a reply to
                  * HelloRetryRequest */
+                rc = tls13CheckAlignedWithRecordEnd(ssl, *bufStart, bufEnd);
+                if (rc < 0)
+                {
+                    goto exit;
+                }
                 rc = tls13TranscriptHashReinit(ssl); /* See 4.4.1. */
                 if (rc < 0)
                 {
@@ -1026,6 +1056,11 @@ static int32_t tls13ParseHandshakeMessage(ssl_t *ssl,
                 goto exit;
             }
             /* Alert reason should be set in parse function so just return */
+            goto exit;
+        }
+        rc = tls13CheckAlignedWithRecordEnd(ssl, *bufStart, bufEnd);
+        if (rc < 0)
+        {
             goto exit;
         }
         /* Now we have everything ready for the secret/key calculations */
@@ -1092,6 +1127,11 @@ static int32_t tls13ParseHandshakeMessage(ssl_t *ssl,
 # endif /* USE_CERT_VALIDATE */
     case SSL_HS_EOED:
         psTracePrintHsMessageParse(ssl, SSL_HS_EOED);
+        rc = tls13CheckAlignedWithRecordEnd(ssl, *bufStart, bufEnd);
+        if (rc < 0)
+        {
+            goto exit;
+        }
         rc = tls13ActivateHsReadKeys(ssl);
         if (rc < 0)
         {
@@ -1101,6 +1141,11 @@ static int32_t tls13ParseHandshakeMessage(ssl_t *ssl,
         ssl->hsState = SSL_HS_TLS_1_3_WAIT_FINISHED;
         break;
     case SSL_HS_FINISHED:
+        rc = tls13CheckAlignedWithRecordEnd(ssl, *bufStart, bufEnd);
+        if (rc < 0)
+        {
+            goto exit;
+        }
         rc = tls13ParseFinished(ssl, &pb);
         if (rc < 0)
         {
